@@ -70,6 +70,32 @@ func init() {
 			st.addPC(ex.st.ULt(t, ex.st.BV(uint64(n), 64)))
 			return t, nil
 		},
+		"vPick": func(ex *Exec, st *State, fr *Frame, args []Value, in ssa.Instruction) (Value, *forkReq) {
+			// vPick(name, lo, hi) int: a nondeterministic integer in [lo, hi],
+			// explored by forking into one concrete child per value
+			name := mustStr(args[0], "vPick")
+			lo, ok1 := ex.constInt(args[1])
+			hi, ok2 := ex.constInt(args[2])
+			if !ok1 || !ok2 || hi < lo || hi-lo > 64 {
+				panic(unsupported("vPick: bad range"))
+			}
+			full, k := ex.freshName(st, name)
+			t := ex.st.Var(full, 64)
+			dst := in.(ssa.Value)
+			var children []*State
+			for v := lo; v <= hi; v++ {
+				ch := st.Clone()
+				c := ex.st.BV(uint64(int64(v)), 64)
+				ch.addPC(ex.st.Eq(t, c))
+				ch.Inputs = append(ch.Inputs, Input{Name: name, Idx: k, Term: t})
+				ch.Forked = true
+				cf := ch.top()
+				cf.Env[dst] = c
+				cf.IP++
+				children = append(children, ch)
+			}
+			return nil, &forkReq{children: children}
+		},
 		"vAssume": func(ex *Exec, st *State, fr *Frame, args []Value, in ssa.Instruction) (Value, *forkReq) {
 			c := args[0].(*smt.Term)
 			if c.IsFalse() {
